@@ -19,11 +19,50 @@ def make_inliner(ix):
     return inliner
 
 
+def make_funceval(ix):
+    """finite-model interpretation of small package helpers: the helper's (original) body is run by guards.run_block with its parameters
+    bound to the model values of the arguments; `return x` of a parameter gives back the very model element (identity is observable)"""
+    import ast
+    from ..py import guards, norm
+
+    class Raised(Exception):
+        pass
+
+    def funceval(ev, call):
+        g = None
+        if isinstance(call.func, ast.Name):
+            quals = {ix.resolve_name(m, call.func.id) for m in ix.mods} - {None}
+            quals = {q for q in quals if q in ix.funcs}
+            g = ix.funcs[quals.pop()] if len(quals) == 1 else None
+        elif isinstance(call.func, ast.Attribute) and isinstance(call.func.value, ast.Name) and call.func.value.id in ("self", "cls"):
+            cands = [f for q, f in ix.funcs.items() if f.cls and f.name == call.func.attr and q == f.qual]
+            g = cands[0] if len(cands) == 1 else None
+        if g is None:
+            return guards.AEval.NO
+        gnode = getattr(g, "orig", None) or g.node
+        b = norm._bind_args(g, gnode, call)
+        if b is None:
+            return guards.AEval.NO
+        params, mapping = b
+        env = {}
+        for p_ in params:
+            env[p_] = ev.ev(mapping[p_])
+        body = [s for s in norm.desugar_match(__import__("copy").deepcopy(gnode)).body]
+        kind, val = guards.run_block(body, ev.atom, env)
+        if kind == "return":
+            return val
+        if kind == "raise":
+            raise guards.ModelError("helper %s raises %s" % (g.qual, val))
+        return None
+    return funceval
+
+
 def index(rep):
     if "ix" not in _cache:
         _cache["ix"] = Index(rep)
         from ..py import guards
         guards.set_inliner(make_inliner(_cache["ix"]))
+        guards.set_funceval(make_funceval(_cache["ix"]))
     else:
         for rel, src in [("blackbird_python/blackbird/%s.py" % m, s) for m, s in _cache["ix"].src.items()]:
             rep.file(rel, src)
